@@ -94,7 +94,7 @@ type engcSnap struct {
 	Hdr          bookkeeping.BlockHeader
 	ProtoVersion protocol.ConsensusVersion
 	Proto        config.ConsensusParams
-	RewardsLevel uint64 // Hdr.RewardsLevel
+	RewardsLevel uint64                       // Hdr.RewardsLevel
 	Accts        map[basics.Address]*engcAcct // only non-empty accounts
 	Kv           map[string][]byte
 	Creatables   map[basics.CreatableIndex]engcCreatable
@@ -179,8 +179,8 @@ func engcWithRewards(d ledgercore.AccountData, level, rewardUnit uint64) ledgerc
 
 // engcModel holds one snapshot per round, index == round.
 type engcModel struct {
-	snaps []*engcSnap
-	ever  map[basics.Address]bool // every address that was ever non-empty
+	snaps  []*engcSnap
+	ever   map[basics.Address]bool // every address that was ever non-empty
 	kvEver map[string]bool         // every kv key that ever existed
 	crEver map[basics.CreatableIndex]basics.CreatableType
 }
